@@ -189,12 +189,12 @@ def worker(arg):
 
 def check(tier, seed):
     t = pc.trees("plain", "san")
-    n = 600 if tier == "quick" else 5000
-    nsan = 40 if tier == "quick" else 300
+    n = 600 if tier == "quick" else 2400
+    nsan = 40 if tier == "quick" else 160
     res = Result("exploration")
     res.rule = RULE
     base = seed * 1000000 + (0 if tier == "quick" else 50000) + 110000
-    ncomp = 4 if tier == "quick" else 48
+    ncomp = 4 if tier == "quick" else 16
     recs = runner.pmap(worker, [(base + 900000 + i, t["plain"], True) for i in range(ncomp)] + [(base + i, t["plain"]) for i in range(n)] +
                        [(base + n + i, t["san"]) for i in range(nsan)], nproc=8)
     pc.collect("C11", recs, res)
